@@ -29,10 +29,14 @@ func extractReplacements(p *Prog, f *ssa.Function) (pairs []replPair, simultaneo
 	}
 	v := res(rets[0], 0)
 	c, ok := v.(*ssa.Call)
-	if !ok || c.Common().StaticCallee() == nil || c.Common().StaticCallee().Name() != "AsValue" {
-		return nil, false, nil, "result is not AsValue(...): " + p.VN(v)
+	if !ok || c.Common().StaticCallee() == nil || (c.Common().StaticCallee().Name() != "AsValue" && c.Common().StaticCallee().Name() != "AsSafeValue") {
+		return nil, false, nil, "result is not AsValue(...)/AsSafeValue(...): " + p.VN(v)
 	}
-	cur := stripConv(c.Common().Args[0])
+	return extractReplacementChain(p, stripConv(c.Common().Args[0]))
+}
+
+// extractReplacementChain reads the replacement table from the text value itself.
+func extractReplacementChain(p *Prog, cur ssa.Value) (pairs []replPair, simultaneous bool, base ssa.Value, err string) {
 	for {
 		call, ok := cur.(*ssa.Call)
 		if !ok || call.Common().StaticCallee() == nil {
@@ -195,6 +199,19 @@ func checkC17(p *Prog, r *Report) {
 			}
 			return fmt.Sprintf("%q is not an HTML entity for %q: unescaping does not give the input back", pr.New, pr.Old)
 		})
+		// escaped once, also through the template syntax: the result is marked safe, or autoescape escapes the
+		// entities again ({{ x|escape }} with x = "<" would print &amp;lt;, which unescapes to &lt; and not to <)
+		for _, ret := range returnsOf(esc) {
+			c, ok := res(ret, 0).(*ssa.Call)
+			if !ok || c.Common().StaticCallee() == nil {
+				continue
+			}
+			if c.Common().StaticCallee().Name() == "AsSafeValue" {
+				r.OK("escape:result-safe", p.InstrPos(ret), "the escaped text is marked safe: it is not escaped a second time by autoescape")
+			} else {
+				r.Bad("escape:result-safe", p.InstrPos(ret), "escape returns its (already escaped) text as an ordinary value: under autoescape {{ x|escape }} is escaped twice and no longer unescapes to the input, while ApplyFilter(\"escape\", x) gives the singly escaped text")
+			}
+		}
 	}
 
 	// ---- addslashes
